@@ -10,94 +10,19 @@ verus! {
 pub assume_specification<T>[ bool::then_some ](b: bool, t: T) -> (r: Option<T>)
     ensures r == (if b { Some(t) } else { None::<T> });
 
+// <[T]>::get_mut: the element at the index (borrowed out of the slice) or None past the end
+// (N8: `<[T]>::get_mut` is generic over SliceIndex, which assume_specification cannot name; calls are routed through this wrapper)
+#[verifier::external_body]
+fn slice_get_mut<T>(s: &mut [T], i: usize) -> (r: Option<&mut T>)
+    ensures
+        i >= old(s)@.len() ==> r is None && final(s)@ == old(s)@,
+        i < old(s)@.len() ==> (r matches Some(p) && *p == old(s)@[i as int] && final(s)@ == old(s)@.update(i as int, *final(p))),
+{ s.get_mut(i) }
+
 pub assume_specification<T>[ std::mem::replace ](dest: &mut T, src: T) -> (r: T)
     ensures r == *old(dest), *final(dest) == src;
 
-//@ item struct Position src=src/terminal.rs
-//@ item struct Size src=src/terminal.rs
-impl Position {
-    //@ fn impl Position :: new src=src/terminal.rs ret=r
-    //@+ ensures r.row == row, r.col == col,
-}
-
-//@ item struct Shape
-
-// ---------------------------------------------------------------- ghost window model
-// A shape denotes a window of a root row-major matrix `rh x rw` (stored in a slice of length >= rh*rw):
-// view position (i, j) is root cell (r0 + i, c0 + j), or (r0 + j, c0 + i) when transposed.
-pub struct Win {
-    pub rh: nat, pub rw: nat,   // root matrix dimensions
-    pub r0: nat, pub c0: nat,   // root coordinates of view position (0, 0)
-    pub h: nat, pub w: nat,     // window height / width as seen through the view
-    pub t: bool,                // transposed
-}
-
-pub open spec fn root_index(win: Win, row: nat, col: nat) -> nat {
-    if win.t { (win.r0 + col) * win.rw + (win.c0 + row) } else { (win.r0 + row) * win.rw + (win.c0 + col) }
-}
-
-// `s` represents window `win` of a buffer of `n` elements
-pub open spec fn rep(s: Shape, win: Win, n: nat) -> bool {
-    &&& s.height == win.h && s.width == win.w
-    &&& win.rh * win.rw <= n && n <= isize::MAX   // slice length type invariant
-    &&& (win.h == 0 || win.w == 0) <==> s.start >= s.end
-    &&& (win.h > 0 && win.w > 0) ==> {
-        &&& s.start == win.r0 * win.rw + win.c0
-        &&& (if win.t { s.row_stride == 1 && s.col_stride == win.rw && win.r0 + win.w <= win.rh && win.c0 + win.h <= win.rw }
-             else { s.row_stride == win.rw && s.col_stride == 1 && win.r0 + win.h <= win.rh && win.c0 + win.w <= win.rw })
-        &&& s.end <= usize::MAX
-    }
-}
-
-pub open spec fn in_win(win: Win, pos: Position) -> bool { pos.row < win.h && pos.col < win.w }
-pub open spec fn spec_offset(s: Shape, pos: Position) -> int {
-    s.start + pos.row * s.row_stride + pos.col * s.col_stride
-}
-
-// in-window positions map to the root cell the window model says, which lies inside the buffer
-proof fn lemma_offset(s: Shape, win: Win, n: nat, pos: Position)
-    requires rep(s, win, n), in_win(win, pos),
-    ensures
-        spec_offset(s, pos) == root_index(win, pos.row as nat, pos.col as nat),
-        0 <= spec_offset(s, pos) < win.rh * win.rw,
-        spec_offset(s, pos) < n,
-{
-    let (rr, cc) = if win.t { (win.r0 + pos.col, win.c0 + pos.row) } else { (win.r0 + pos.row, win.c0 + pos.col) };
-    assert(rr < win.rh && cc < win.rw);
-    assert(spec_offset(s, pos) == rr * win.rw + cc) by (nonlinear_arith)
-        requires
-            spec_offset(s, pos) == s.start + pos.row * s.row_stride + pos.col * s.col_stride,
-            s.start == win.r0 * win.rw + win.c0,
-            (win.t && s.row_stride == 1 && s.col_stride == win.rw && rr == win.r0 + pos.col && cc == win.c0 + pos.row)
-            || (!win.t && s.row_stride == win.rw && s.col_stride == 1 && rr == win.r0 + pos.row && cc == win.c0 + pos.col);
-    assert(rr * win.rw + cc < win.rh * win.rw) by (nonlinear_arith)
-        requires rr < win.rh, cc < win.rw;
-}
-
-proof fn lemma_rowmajor_inj(a: nat, b: nat, c: nat, d: nat, w: nat)
-    requires b < w, d < w, a * w + b == c * w + d,
-    ensures a == c && b == d,
-{
-    if a < c {
-        assert((a + 1) * w <= c * w) by (nonlinear_arith) requires a + 1 <= c;
-        assert((a + 1) * w == a * w + w) by (nonlinear_arith);
-    } else if a > c {
-        assert((c + 1) * w <= a * w) by (nonlinear_arith) requires c + 1 <= a;
-        assert((c + 1) * w == c * w + w) by (nonlinear_arith);
-    }
-}
-
-// distinct in-window positions have distinct offsets (no aliasing)
-proof fn lemma_injective(s: Shape, win: Win, n: nat, p: Position, q: Position)
-    requires rep(s, win, n), in_win(win, p), in_win(win, q), spec_offset(s, p) == spec_offset(s, q),
-    ensures p == q,
-{
-    lemma_offset(s, win, n, p);
-    lemma_offset(s, win, n, q);
-    let (pr, pc) = if win.t { (win.r0 + p.col, win.c0 + p.row) } else { (win.r0 + p.row, win.c0 + p.col) };
-    let (qr, qc) = if win.t { (win.r0 + q.col, win.c0 + q.row) } else { (win.r0 + q.row, win.c0 + q.col) };
-    lemma_rowmajor_inj(pr as nat, pc as nat, qr as nat, qc as nat, win.rw);
-}
+//@ include surface_model.inc
 
 // the sub-window selected by row/col bounds on a window
 pub open spec fn sub_win(win: Win, row_start: nat, row_end: nat, col_start: nat, col_end: nat) -> Win {
@@ -403,16 +328,6 @@ impl<T> SurfaceOwned<T> {
 }
 
 // ---------------------------------------------------------------- SurfaceMut: writes stay inside the window (frame)
-// k is the offset of some in-window position
-pub open spec fn is_win_offset(s: Shape, win: Win, k: int) -> bool {
-    exists|p: Position| in_win(win, p) && #[trigger] spec_offset(s, p) == k
-}
-// everything outside the window is unchanged
-pub open spec fn frame<T>(s: Shape, win: Win, before: Seq<T>, after: Seq<T>) -> bool {
-    &&& before.len() == after.len()
-    &&& forall|k: int| 0 <= k < before.len() && !is_win_offset(s, win, k) ==> #[trigger] after[k] == before[k]
-}
-
 pub trait SurfaceMut: Surface {
     fn data_mut(&mut self) -> (r: &mut [Self::Item])
         ensures
@@ -462,6 +377,18 @@ pub trait SurfaceMut: Surface {
     //@loop 2     rep(shape, old(self).win(), data@.len()),
     //@loop 2     frame(shape, old(self).win(), old(self).spec_data(), data@),
     //@proof loop2.start proof { let p = Position { row, col }; lemma_offset(shape, old(self).win(), data@.len(), p); assert(is_win_offset(shape, old(self).win(), spec_offset(shape, p))); }
+
+    //@ fn trait SurfaceMut: Surface :: get_mut ret=r
+    //@+ requires rep(old(self).spec_shape(), old(self).win(), old(self).spec_data().len()),
+    //@+ ensures
+    //@+     final(self).spec_shape() == old(self).spec_shape(), final(self).win() == old(self).win(),
+    //@+     // outside the window: nothing is handed out and nothing changes
+    //@+     !in_win(old(self).win(), pos) ==> r is None && final(self).spec_data() == old(self).spec_data(),
+    //@+     // inside: exactly the cell of that position is lent out; whatever is written through it is the only change
+    //@+     in_win(old(self).win(), pos) ==> (r matches Some(p) && *p == old(self).spec_data()[spec_offset(old(self).spec_shape(), pos)]
+    //@+         && final(self).spec_data() == old(self).spec_data().update(spec_offset(old(self).spec_shape(), pos), *final(p))),
+    //@proof start proof { if in_win(old(self).win(), pos) { lemma_offset(old(self).spec_shape(), old(self).win(), old(self).spec_data().len(), pos); } }
+    //@subst N8 `<[T]>::get_mut` routed through the specified wrapper slice_get_mut /self\.data_mut\(\)\.get_mut\(shape\.offset\(pos\)\)/slice_get_mut(self.data_mut(), shape.offset(pos))/
 
     //@ fn trait SurfaceMut: Surface :: set ret=r
     //@+ requires rep(old(self).spec_shape(), old(self).win(), old(self).spec_data().len()), in_win(old(self).win(), pos),
